@@ -42,6 +42,10 @@ def scanner():
 ALPHA = list(b"abcdefghijklmnopqrstuvwxyzABCXYZ0123456789 .,:;/-_=()[]{}<>!?@#$%*~|+&^")
 PRE = [b"", b"lorem ", b"x = ", b"quux\n", b"call "]
 SUF = [b"", b" dolor", b";", b"\nzzyzx"]
+# a literal chain inside a longer expression: a further joining operator with an operand that is not a literal follows / precedes
+# it (the chain of literals is still the whole maximal run of literals)
+CPRE = [b"path + ", b"name & ", b"f(x) &amp; "]
+CSUF = [b" + path", b"&name", b" & _\r\n tail", b"+$env:TEMP", b" &amp; A1", b" + "]
 
 
 def lit(lo=0, hi=8, alpha=ALPHA):
@@ -106,7 +110,7 @@ SEPS = [b"+", b" + ", b"&", b" & ", b" &amp; ", b"&amp;", b" & _\r\n  ", b"\t+\n
 
 
 def concat_cases():
-    return st.fixed_dictionaries({"parts": st.lists(st.tuples(lit(), quote()), min_size=2, max_size=6), "seps": st.lists(st.sampled_from(SEPS), min_size=5, max_size=5), "embed": st.tuples(st.sampled_from(PRE), st.sampled_from(SUF)), "decoy": st.sampled_from([False, False, True])})
+    return st.fixed_dictionaries({"parts": st.lists(st.tuples(lit(), quote()), min_size=2, max_size=6), "seps": st.lists(st.sampled_from(SEPS), min_size=5, max_size=5), "embed": st.tuples(st.sampled_from(PRE + CPRE), st.sampled_from(SUF + CSUF)), "decoy": st.sampled_from([False, False, True])})
 
 
 def check_concat(case) -> Outcome:
